@@ -1,12 +1,298 @@
 /-
   C05 — fetch, clone and push transfer a complete, byte-identical object closure.
-  (work in progress: theorems are added below)
+
+  Only property theorems, non-vacuity examples and negation witnesses live here.  The model is
+  Model/Graph.lean (object graph, `Reach`) + Model/Missing.lean (`_split_commits_and_tags`,
+  `_collect_ancestors`, `_collect_filetree_revs`, `MissingObjectFinder` with an arbitrary pop order,
+  thin-pack completion) + Model/Negotiate.lean (have/ack walkers); the structural facts the model
+  depends on come from Gen/ObjGraph.lean, regenerated from /repo on every run.  Helper lemmas are in
+  Lemmas/Missing.lean.
+
+  Reading guide.  `s` is the sender's object store, `haves`/`wants` the arguments of
+  `MissingObjectFinder`, `present s haves` the haves the sender actually has (the others are ignored),
+  `pick` the pop order of `objects_to_send` (ANY function), `tagged` the `get_tagged()` map.
+  `mof … = .ok sent` means the real iteration finished without an exception and yielded `sent`.
 -/
-import DulwichModel.Model.Missing
+import DulwichModel.Lemmas.Missing
+import DulwichModel.Model.Negotiate
 
 namespace Dulwich.Props.C05
 open Dulwich Dulwich.Graph Dulwich.Missing
 
-theorem kind_gitlink : kindOfMode 0o160000 = Kind.gitlink := by decide
+/-! ## 1. Soundness: nothing outside the closure of the wants is selected, apart from tags followed
+automatically.  No hypothesis: any store (closed or not, well-typed or not), any haves, any
+shallow set, any pop order, any fuel. -/
+
+theorem mof_sound (s : Store) (tagged : List (Id × Id)) (pick : Nat → List (Id × Bool) → Nat)
+    (fuel : Nat) (haves wants shallow sent : List Id)
+    (h : mof s tagged pick fuel haves wants shallow = .ok sent) :
+    ∀ x ∈ sent, Reach s wants x ∨ x ∈ tagged.map (·.2) := by
+  unfold mof at h
+  split at h
+  · cases h
+  · rename_i st0 h0
+    split at h
+    · cases h
+    · rename_i st hrun
+      cases h
+      exact (run_sinv fuel st0 st (init_sinv tagged h0) hrun).2
+
+/-- Without `include-tag` (empty `get_tagged`) the selection lies inside the closure of the wants. -/
+theorem mof_sound_no_tags (s : Store) (pick : Nat → List (Id × Bool) → Nat)
+    (fuel : Nat) (haves wants shallow sent : List Id)
+    (h : mof s [] pick fuel haves wants shallow = .ok sent) : ∀ x ∈ sent, Reach s wants x := by
+  intro x hx
+  rcases mof_sound s [] pick fuel haves wants shallow sent h x hx with h1 | h1
+  · exact h1
+  · simp at h1
+
+/-- What the sender assumes the receiver has (`get_remote_has()`, the initial `sha_done`) is
+reachable from haves *the sender's store contains*: a have is never taken as common on the
+client's word alone. -/
+theorem remote_has_reachable_from_known_haves (s : Store) (fuel : Nat) (haves wants rh : List Id)
+    (h : mofRemoteHas s fuel haves wants [] = .ok rh) : ∀ x ∈ rh, Reach s (present s haves) x := by
+  unfold mofRemoteHas at h
+  split at h
+  · cases h
+  · rename_i st0 h0
+    cases h
+    obtain ⟨p⟩ := init_parts h0
+    have hhs := split_sound s true fuel haves p.hh p.hsplit
+    have hanc := collectAncestors_sound s [] [] (Reach s (present s haves))
+      (fun y t ps x hy hs hx => .step hy hs (by simp [children, hx])) fuel p.hh.1 [] [] p.anc p.hanc
+      (fun x hx => (hhs.1 x hx).1) (by simp) (by simp)
+    have hbases := collectAncestors_sound s p.anc.1 [] (fun _ => True) (fun _ _ _ _ _ _ _ => trivial)
+      fuel p.w.1 [] [] p.mc p.hmc (by simp) (by simp) (by simp)
+    have hrh := remoteHas_sound s _ (reach_edgeClosed s _) fuel p.mc.2 p.rh p.hrh
+      (fun x hx => hanc.1 x (hbases.2 x hx).2)
+    intro x hx
+    rw [p.hdone] at hx
+    simp only [List.mem_append] at hx
+    rcases hx with hx | hx
+    · exact (hhs.2.1 x hx).1
+    · exact hrh x hx
+
+/-! ## 2. Completeness: everything reachable from the wants is selected or reachable from a have
+the sender knows.  Hypotheses: the store is well typed (tree-entry modes agree with object types —
+true of every store of real objects), `get_tagged` maps a name to a tag *of that name* (direct
+tags), no shallow cut.  Any pop order, any fuel for which the run ends. -/
+
+theorem mof_complete (s : Store) (tagged : List (Id × Id)) (pick : Nat → List (Id × Bool) → Nat)
+    (fuel : Nat) (haves wants sent : List Id) (hwt : WellTyped s) (htg : TaggedDirect s tagged)
+    (h : mof s tagged pick fuel haves wants [] = .ok sent) :
+    ∀ x, Reach s wants x → x ∈ sent ∨ Reach s (present s haves) x :=
+  mof_complete_core hwt htg h
+
+/-- Full statement of completeness (arbitrary `get_tagged`, with shallow cut relative to the
+boundary); `mof_complete` proves it for direct-tag maps and `shallow = []`. -/
+def MofCompleteStatement : Prop :=
+  ∀ (s : Store) (tagged : List (Id × Id)) (pick : Nat → List (Id × Bool) → Nat) (fuel : Nat)
+    (haves wants sent : List Id), WellTyped s →
+    mof s tagged pick fuel haves wants [] = .ok sent →
+    ∀ x, Reach s wants x → x ∈ sent ∨ Reach s (present s haves) x
+
+/-! ## 3. Refinement to "receiver := receiver ∪ sent": after the transfer the receiver holds every
+object reachable from the wants, identical to the sender's.
+
+Hypotheses about the receiver `r` (exactly these):
+ * `hR`  — for every have the sender knows, the receiver holds its whole closure, with the sender's
+           contents (the receiver only claims commits whose closure it holds, and content
+           addressing makes equal names equal objects);
+ * `hA`  — on every other name both stores have, they agree (content addressing);
+ and about the sender: `hS` — it holds the closure of the wants. -/
+
+theorem transfer_complete (s r : Store) (tagged : List (Id × Id))
+    (pick : Nat → List (Id × Bool) → Nat) (fuel : Nat) (haves wants sent : List Id)
+    (hwt : WellTyped s) (htg : TaggedDirect s tagged)
+    (h : mof s tagged pick fuel haves wants [] = .ok sent)
+    (hS : ClosedFor s wants)
+    (hR : ∀ x, Reach s (present s haves) x → r x = s x)
+    (hA : ∀ x o o', r x = some o → s x = some o' → o = o') :
+    (∀ x, Reach s wants x → union r (restrict s sent) x = s x ∧ (s x).isSome = true) ∧
+    ClosedFor (union r (restrict s sent)) wants := by
+  have key : ∀ x, Reach s wants x → union r (restrict s sent) x = s x ∧ (s x).isSome = true := by
+    intro x hx
+    have hsome := hS x hx
+    refine ⟨?_, hsome⟩
+    rcases mof_complete s tagged pick fuel haves wants sent hwt htg h x hx with h1 | h1
+    · simp only [union, restrict, h1, if_true]
+      cases hr : r x with
+      | none => simp
+      | some o =>
+        cases hsx : s x with
+        | none => simp [hsx] at hsome
+        | some o' => simp [hA x o o' hr hsx]
+    · simp only [union, hR x h1]
+      cases hsx : s x <;> simp [restrict]
+  refine ⟨key, ?_⟩
+  -- reachability in the receiver's new store stays inside the sender's closure of the wants
+  have sub : ∀ x, Reach (union r (restrict s sent)) wants x → Reach s wants x := by
+    intro x hx
+    induction hx with
+    | root hm => exact .root hm
+    | step _ hs hc ih => exact .step ih ((key _ ih).1 ▸ hs) hc
+  intro x hx
+  have := key x (sub x hx)
+  rw [this.1]; exact this.2
+
+/-! ## 4. The selected SET does not depend on the order in which `objects_to_send.pop()` returns
+entries (same hypotheses as completeness). -/
+
+theorem mof_order_independent (s : Store) (tagged : List (Id × Id))
+    (pick₁ pick₂ : Nat → List (Id × Bool) → Nat) (fuel₁ fuel₂ : Nat) (haves wants sent₁ sent₂ : List Id)
+    (hwt : WellTyped s) (htg : TaggedDirect s tagged)
+    (h₁ : mof s tagged pick₁ fuel₁ haves wants [] = .ok sent₁)
+    (h₂ : mof s tagged pick₂ fuel₁ haves wants [] = .ok sent₂) (_ : fuel₂ = fuel₁) :
+    ∀ x, x ∈ sent₁ ↔ x ∈ sent₂ := by
+  unfold mof at h₁ h₂
+  split at h₁
+  · cases h₁
+  rename_i st0 h0
+  rw [h0] at h₂
+  simp only at h₂
+  split at h₁
+  · cases h₁
+  rename_i st1 hrun1
+  split at h₂
+  · cases h₂
+  rename_i st2 hrun2
+  cases h₁; cases h₂
+  intro x
+  rw [run_eq_sel hwt htg h0 hrun1 x, run_eq_sel hwt htg h0 hrun2 x]
+
+/-- Nothing the sender believes the receiver has is sent again. -/
+theorem mof_skips_remote_has (s : Store) (tagged : List (Id × Id))
+    (pick : Nat → List (Id × Bool) → Nat) (fuel : Nat) (haves wants sent rh : List Id)
+    (hwt : WellTyped s) (htg : TaggedDirect s tagged)
+    (h : mof s tagged pick fuel haves wants [] = .ok sent)
+    (hrh : mofRemoteHas s fuel haves wants [] = .ok rh) : ∀ x ∈ sent, x ∉ rh := by
+  unfold mof at h
+  unfold mofRemoteHas at hrh
+  split at h
+  · cases h
+  rename_i st0 h0
+  rw [h0] at hrh
+  cases hrh
+  split at h
+  · cases h
+  rename_i st hrun
+  cases h
+  intro x hx hd
+  have := (run_eq_sel hwt htg h0 hrun x).mp hx
+  cases this with
+  | root _ hne => exact hne hd
+  | kid _ _ _ hne => exact hne hd
+  | tag _ _ hne => exact hne hd
+
+/-! ## 5. Thin packs: after `extend_pack` has appended the external bases the pack is
+self-contained (every delta base is in the pack). -/
+
+theorem thin_pack_completion (have_ : Id → Bool) (p p' : List PackEntry)
+    (h : completeThin have_ p = .ok p') : SelfContained p' :=
+  completeThin_selfContained h
+
+/-- …and completion fails (instead of installing an unusable pack) when a base is missing. -/
+theorem thin_pack_missing_base (have_ : Id → Bool) (p : List PackEntry) (b : Id)
+    (hb : b ∈ extRefs p) (hm : have_ b = false) : completeThin have_ p = .error .key := by
+  unfold completeThin
+  have : (extRefs p).all have_ = false := by
+    rw [List.all_eq_false]
+    exact ⟨b, hb, by simp [hm]⟩
+  simp [this]
+
+/-! ## 6. Negotiation only ever shrinks the haves to (what the client claimed) ∩ (what the server's
+store contains), in every ack mode, for every client transcript. -/
+
+open Dulwich.Negotiate in
+theorem negotiation_sound (mode : AckMode) (stateless : Bool) (has : Id → Bool) (sat : List Id → Bool)
+    (lines : List CLine) (r : NegoResult) (h : negotiate mode stateless has sat lines = .ok r) :
+    ∀ x ∈ r.haves, has x = true ∧ CLine.have_ x ∈ lines :=
+  negotiate_haves_sound mode stateless has sat lines r h
+
+open Dulwich.Negotiate in
+/-- A pack is sent only after `done`, unless `no-done` was negotiated and something is common. -/
+theorem negotiation_pack_needs_done (mode : AckMode) (stateless : Bool) (has : Id → Bool)
+    (sat : List Id → Bool) (lines : List CLine) (r : NegoResult)
+    (h : negotiate mode stateless has sat lines = .ok r) (noDone : Bool)
+    (hp : sendsPack mode r noDone = true) : r.doneReceived = true ∨ (noDone = true ∧ r.haves ≠ []) :=
+  sendsPack_needs_done mode r noDone hp
+
+/-! ## 7. Non-vacuity: a concrete history (root commit 2, child commit 5 sharing a subtree and
+carrying a gitlink, a tag 6 of the commit, a tag 7 of the tag) on which all hypotheses hold. -/
+
+def demo : List (Id × Obj) :=
+  [(0, .blob), (1, .tree [(.file, 0)]), (2, .commit 1 []),
+   (3, .blob), (4, .tree [(.file, 3), (.dir, 1), (.gitlink, 9)]), (5, .commit 4 [2]),
+   (6, .tag 5), (7, .tag 6)]
+
+theorem demo_wellTyped : WellTyped (ofList demo) := wellTyped_ofList demo (by decide)
+
+theorem demo_taggedDirect : TaggedDirect (ofList demo) [(5, 6)] := by
+  intro x t h
+  simp only [List.lookup] at h
+  split at h
+  · cases h
+    rename_i heq
+    have : x = 5 := by simpa using heq
+    subst this
+    exact .inl (by decide)
+  · simp [List.lookup] at h
+
+/-- Receiver has the root commit; wants the outer tag: newest-first and oldest-first pop orders
+yield the same set; the gitlink target 9 is not selected; the root tree 1 of the boundary commit is
+selected again (`get_tree_objects` leaves the root out of `remote_has` — over-sending inside the
+closure of the wants, which the property allows). -/
+example : mof (ofList demo) [] (fun _ _ => 0) 40 [2] [7] [] = .ok [6, 7, 1, 3, 4, 5] := by decide
+example : mof (ofList demo) [] (fun _ t => t.length - 1) 40 [2] [7] [] = .ok [3, 1, 4, 5, 7, 6] := by
+  decide
+/-- With `include-tag` the tag of the sent commit travels although only the commit was wanted. -/
+example : mof (ofList demo) [(5, 6)] (fun _ _ => 0) 40 [2] [5] [] = .ok [6, 1, 3, 4, 5] := by decide
+
+example : ∀ x, Reach (ofList demo) [7] x → x ∈ [6, 7, 1, 3, 4, 5] ∨ Reach (ofList demo) (present (ofList demo) [2]) x :=
+  mof_complete (ofList demo) [] (fun _ _ => 0) 40 [2] [7] _ demo_wellTyped
+    (by intro x t h; simp at h) (by decide)
+
+/-! ## 8. Negation witnesses: what the hypotheses are for. -/
+
+/-- `get_tagged` maps the *peeled* target of a tag chain to the outer tag (as
+`UploadPackHandler.get_tagged` does): the outer tag 7 is queued as a leaf and yielded, the inner
+tag 6 it points to is not — the yielded set is not closed.  (The wants' own closure is still
+complete; this is why `TaggedDirect` is a hypothesis of the exact characterisation only.) -/
+theorem autotag_chain_counterexample :
+    mof (ofList demo) [(5, 7)] (fun _ _ => 0) 40 [2] [5] [] = .ok [7, 1, 3, 4, 5] ∧
+    ofList demo 7 = some (.tag 6) ∧ 6 ∉ [7, 1, 3, 4, 5] := by decide
+
+/-- A have whose closure the receiver does not hold: the receiver claims commit 2 but lacks its
+tree 1's blob 0; the sender (rightly, by the protocol) does not send it and the receiver stays
+incomplete.  This is hypothesis `hR` of `transfer_complete`. -/
+theorem have_without_closure_counterexample :
+    let s := ofList demo
+    let r : Store := ofList [(2, .commit 1 []), (1, .tree [(.file, 0)])]
+    mof s [] (fun _ _ => 0) 40 [2] [5] [] = .ok [1, 3, 4, 5] ∧
+    Reach s [5] 0 ∧ union r (restrict s [1, 3, 4, 5]) 0 = none := by
+  refine ⟨by decide, ?_, by decide⟩
+  have h5 : Reach (ofList demo) [5] 5 := .root (by simp)
+  have h4 : Reach (ofList demo) [5] 4 := .step h5 (o := .commit 4 [2]) (by decide) (by simp [children])
+  have h1 : Reach (ofList demo) [5] 1 :=
+    .step h4 (o := .tree [(.file, 3), (.dir, 1), (.gitlink, 9)]) (by decide) (by decide)
+  exact .step h1 (o := .tree [(.file, 0)]) (by decide) (by decide)
+
+/-- Gitlinks are not edges: the submodule commit 9 named by tree 4 is not reachable. -/
+theorem gitlink_not_followed : ¬ Reach (ofList demo) [7] 9 := by
+  intro h
+  have : ∀ x, Reach (ofList demo) [7] x → x ≤ 7 := by
+    intro x hx
+    refine Reach.induct (P := fun x => x ≤ 7) (by simp) ?_ hx
+    intro y o c hy hs hc
+    have hy' : y = 0 ∨ y = 1 ∨ y = 2 ∨ y = 3 ∨ y = 4 ∨ y = 5 ∨ y = 6 ∨ y = 7 := by omega
+    rcases hy' with rfl | rfl | rfl | rfl | rfl | rfl | rfl | rfl <;>
+      (simp [ofList, demo, List.lookup] at hs; subst hs; simp [children, treeKids] at hc; omega)
+  have := this 9 h
+  omega
+
+/-- The mode classification the walk uses agrees with `S_ISGITLINK` / `S_ISDIR` on git's modes. -/
+theorem kind_of_git_modes :
+    kindOfMode 0o160000 = .gitlink ∧ kindOfMode 0o040000 = .dir ∧ kindOfMode 0o100644 = .file ∧
+    kindOfMode 0o100755 = .file ∧ kindOfMode 0o120000 = .file := by decide
 
 end Dulwich.Props.C05
